@@ -18,3 +18,4 @@ import AvoVerif.Props.C01Pipeline
 #print axioms Avo.Alloc.avo_alloc_valid_installed
 #print axioms Avo.Pipeline.liveness_postfix
 #print axioms Avo.Pipeline.pipeline_preserves
+#print axioms Avo.Pipeline.mkLProg_wf
